@@ -85,4 +85,13 @@ protected:
   static inline std::pair<vsbx*, void*> impl_get_executed_callback_sandbox_and_key() { return { nullptr, nullptr }; }
   template<typename R, typename... A> inline void impl_unregister_callback(void*) {}
 };
+
+// Variant whose function-pointer representation inside the sandbox (impl_internal_lookup_symbol, e.g. an indirect-call
+// table index) is a different value from the address the application calls (impl_lookup_symbol).
+class vsbx_il : public vsbx
+{
+public:
+  using needs_internal_lookup_symbol = void;
+  template<typename T = void> void* impl_internal_lookup_symbol(const char*) { return nullptr; }
+};
 }
